@@ -196,7 +196,11 @@ func solveAll(results []*OblResult, timeoutS int, workers int, order []int) {
 								r.ConjLin = append(r.ConjLin, lin)
 							}
 						}
-						if gs := r.Ex.splitByGuard(r.Obl.Guard, r.Obl.Goal); len(gs) > 1 {
+						gs := r.Ex.splitByGuard(r.Obl.Guard, r.Obl.Goal)
+						if len(gs) <= 1 {
+							gs = r.Ex.splitByIte(r.Obl.Guard, r.Obl.Goal)
+						}
+						if len(gs) > 1 {
 							// one query per (mutually exclusive) incoming branch, with merged values specialised to it
 							for _, gg := range gs {
 								o2 := *r.Obl
@@ -220,6 +224,9 @@ func solveAll(results []*OblResult, timeoutS int, workers int, order []int) {
 								all = false
 								tried = append(tried, "split:"+strings.Join(pr.Tried, ","))
 								r.Res.Tried = tried
+								if os.Getenv("GOVC_DEBUG") != "" {
+									os.WriteFile("/tmp/govc_split_fail.smt2", []byte(sc), 0o644)
+								}
 								break
 							}
 						}
